@@ -118,7 +118,7 @@ func TestC19(t *testing.T) {
 	defer r.Close(t)
 	r.Rule("histories: every sequence of Set/Append/Add over 3 tags (nil tag, en, fr; and, one step shorter, the empty tag, the nil tag, en) x 2 texts up to the length bound, then random longer ones over 5 tags (incl. the empty one) x 4 texts; " +
 		"after every step Count, First, the tag sequence and Get(tag) for every tag are compared with a reference list of (tag,text) entries. " +
-		"equality: all ordered pairs of lists without repeated tags of length <= 3 over (nil tag, en, fr), and of length <= 2 over (en, EN, nil tag, empty tag): Equals(a,b) iff same set of pairs, both lists unchanged by the comparison and a second comparison agreeing with the first. " +
+		"equality: all ordered pairs of lists without repeated tags of length <= 3 over (nil tag, en, fr), and of length <= 2 over (en, EN, nil tag, empty tag): Equals(a,b) iff same set of pairs, both lists unchanged by the comparison and a second comparison agreeing with the first; every list also against its own prefixes and against itself extended into its spare capacity (operands sharing one backing array). " +
 		"non-trivial history = contains a Set on a present tag after >= 2 entries; non-trivial pair = both lists have >= 2 entries; distinct by op sequence / pair")
 
 	tags3 := []ap.LangRef{ap.NilLangRef, "en", "fr"}
@@ -289,7 +289,41 @@ func TestC19(t *testing.T) {
 				}
 			}
 		}
-		r.Cells(len(pairs), n)
+		// operands that share their storage: a list against its own prefixes, and against itself extended into its spare capacity
+		// (g := l; g.Append(...)).  The same first entry at the same address, and different pairs all the same
+		for _, a := range lists {
+			if len(a) == 0 {
+				continue
+			}
+			s := make(nl, len(a), len(a)+2)
+			copy(s, a)
+			ext := append(s, ap.LangRefValue{Ref: "zz", Value: ap.Content("extension")})
+			type ap2 struct {
+				name string
+				x, y nl
+			}
+			cases := []ap2{{"extended", s, ext}, {"extended-rev", ext, s}}
+			for k := 0; k < len(s); k++ {
+				cases = append(cases, ap2{fmt.Sprintf("prefix%d", k), s, s[:k]}, ap2{fmt.Sprintf("prefix%d-rev", k), s[:k], s})
+			}
+			for _, c := range cases {
+				cell := fmt.Sprintf("aliased %s %q", c.name, a)
+				if !r.WantCell(cell) {
+					continue
+				}
+				n++
+				want := setOf(c.x) == setOf(c.y)
+				var got bool
+				pi := evSafe(func() { got = c.x.Equals(c.y) })
+				r.Case(cell, len(a) >= 2, "equality aliased")
+				if pi != nil {
+					r.Report("equality", cell, "nlv panic@"+pi.Frame, pi.Value, cell)
+				} else if got != want {
+					r.Report("equality", cell, "nlv equals aliased "+strings.TrimSuffix(strings.TrimRight(c.name, "0123456789"), "-rev"), fmt.Sprintf("%q.Equals(%q) = %v, want %v (the two share one backing array)", c.x, c.y, got, want), cell)
+				}
+			}
+		}
+		r.Cells(n, n)
 		r.Exhaustive("equality", !r.Replaying())
 	}
 
